@@ -84,7 +84,7 @@ class Obj(AV):
 
     cls: str
     fields: tuple = ()  # tuple of (name, AV)
-    line: int = 0
+    line: int = field(default=0, compare=False)
 
     def get(self, name: str) -> AV | None:
         for k, v in self.fields:
